@@ -86,6 +86,16 @@ CLAIMED = {
             "scikit-learn's own; random corpora with all listed options are fitted with the traceable vectorizers and "
             "their parents and validated by NGramsTrace (vocabulary columns, matrices, counts from the spec's Grams).",
             "default tokenizer; tf-idf compared for equality with the parent class, not modelled."),
+    "C18": ("DESIGN 4/C18",
+            "TLA+ spec Metrics (min/mean/max accumulator machine; tr/inv_tr dispatch table): TLC model checking + "
+            "event-level trace validation of every accumulation step and of all 36 dispatch combinations",
+            "TLC checks range and min<=mean<=max for all accumulation histories in the bound; for seeded tables the "
+            "train/test split of every draw is captured (module global wrapped) and a spy model records predictions, so "
+            "each (draw, i, j) contribution is an event the specification accumulates itself and compares with the "
+            "returned matrices (square, range, extremes, labels, frame = array, input untouched, unit diagonal); "
+            "comparable_metric is replayed on every (tr, inv_tr) pair with a recording metric.",
+            "per-draw values are recomputed by the harness on a 1e-6 grid; the numeric value of a correlation is not "
+            "modelled."),
 }
 
 PENDING_REASON = "check not built yet in this round (planned: see DESIGN.md section 4); not claimed until it runs"
